@@ -816,9 +816,50 @@ type typedOutput struct {
 	Echo string `json:"echo"`
 }
 
+// typedFlat: scalars only, some of them with the ,string option (encoding/json then reads them from inside a JSON string)
+type typedFlat struct {
+	Label string  `json:"label,string"`
+	Name  string  `json:"name"`
+	Count int     `json:"count,string"`
+	On    bool    `json:"on,omitempty"`
+	Price float64 `json:"price"`
+	ID    int64   `json:"id,string,omitempty"`
+	Note  *string `json:"note,omitempty"`
+}
+
 type C18TypedCase struct {
 	Mode  Mode     `json:"mode"`
 	Calls []string `json:"calls"` // the arguments object of each call, as JSON text
+	Flat  bool     `json:"flat,omitempty"` // the tool's input is typedFlat
+}
+
+func genFlatArgs(t *rapid.T) string {
+	m := map[string]interface{}{}
+	if rapid.Bool().Draw(t, "label") {
+		// the wire form of a ,string string field is the JSON encoding of the text, inside a JSON string
+		b, _ := json.Marshal(rapid.SampledFrom([]string{"abc", "", "with \"quotes\"", "ünï"}).Draw(t, "lab"))
+		m["label"] = string(b)
+	}
+	if rapid.Bool().Draw(t, "name") {
+		m["name"] = rapid.SampledFrom([]string{"n", "", "\"quoted\""}).Draw(t, "nm")
+	}
+	if rapid.IntRange(0, 2).Draw(t, "count") == 0 {
+		m["count"] = fmt.Sprint(rapid.SampledFrom([]int{0, 7, -3}).Draw(t, "cnt"))
+	}
+	if rapid.Bool().Draw(t, "on") {
+		m["on"] = rapid.Bool().Draw(t, "onv")
+	}
+	if rapid.Bool().Draw(t, "price") {
+		m["price"] = rapid.SampledFrom([]float64{0.5, 3, -1e9}).Draw(t, "pr")
+	}
+	if rapid.IntRange(0, 3).Draw(t, "id") == 0 {
+		m["id"] = fmt.Sprint(rapid.SampledFrom([]int64{1, 1 << 60}).Draw(t, "idv"))
+	}
+	if rapid.IntRange(0, 3).Draw(t, "note") == 0 {
+		m["note"] = "a note"
+	}
+	b, _ := json.Marshal(m)
+	return string(b)
 }
 
 func genTypedArgs(t *rapid.T) string {
@@ -869,20 +910,32 @@ func genTypedArgs(t *rapid.T) string {
 
 func genC18Typed(t *rapid.T) C18TypedCase {
 	c := C18TypedCase{Mode: Mode(rapid.SampledFrom([]int{0, 1, 2, 5, 6}).Draw(t, "mode"))}
+	c.Flat = rapid.IntRange(0, 2).Draw(t, "flat") == 0
 	n := rapid.IntRange(1, 5).Draw(t, "ncalls")
 	for i := 0; i < n; i++ {
-		c.Calls = append(c.Calls, genTypedArgs(t))
+		if c.Flat {
+			c.Calls = append(c.Calls, genFlatArgs(t))
+		} else {
+			c.Calls = append(c.Calls, genTypedArgs(t))
+		}
 	}
 	return c
 }
 
 func execC18Typed(c C18TypedCase) *Failure {
+	if c.Flat {
+		return execTyped[typedFlat](c)
+	}
+	return execTyped[typedInput](c)
+}
+
+func execTyped[T any](c C18TypedCase) *Failure {
 	w := NewWorld(c.Mode, RegSpec{}, WorldOpt{})
 	defer w.Close()
-	var got []typedInput
-	handler := mcp.NewTypedToolHandler(func(ctx context.Context, req *mcp.CallToolRequest, in typedInput) (typedOutput, error) {
+	var got []T
+	handler := mcp.NewTypedToolHandler(func(ctx context.Context, req *mcp.CallToolRequest, in T) (typedOutput, error) {
 		got = append(got, in)
-		return typedOutput{Echo: in.Query}, nil
+		return typedOutput{Echo: "e"}, nil
 	})
 	var srv interface{}
 	switch {
@@ -893,7 +946,7 @@ func execC18Typed(c C18TypedCase) *Failure {
 	default:
 		srv = w.Stdio
 	}
-	tool := mcp.NewTool("typed", mcp.WithInputStruct[typedInput](), mcp.WithOutputStruct[typedOutput]())
+	tool := mcp.NewTool("typed", mcp.WithInputStruct[T](), mcp.WithOutputStruct[typedOutput]())
 	RegistrarOf(srv).RegisterTool(tool, handler)
 	conn, err := w.Connect()
 	if err != nil {
@@ -907,7 +960,7 @@ func execC18Typed(c C18TypedCase) *Failure {
 		if len(ex.Frames) != 1 || len(got) != before+1 {
 			return TimingFailf("C18/typed/no-call", "%s call %d with %s: frames %d, handler ran %d times", c.Mode, i, args, len(ex.Frames), len(got)-before)
 		}
-		var want typedInput
+		var want T
 		if err := json.Unmarshal([]byte(args), &want); err != nil {
 			continue
 		}
